@@ -1,4 +1,125 @@
+(* KV.C34.Witness — non-vacuity: concrete, non-trivial histories meet the hypotheses of the
+   implication theorems of Props.v (on the current tree, fx = true); the premise about stale
+   replication sources is needed; the pre-fix counterexample. *)
 From Coq Require Import List NArith Bool.
 Import ListNotations.
-Require Import KV.C34.Model.
+Require Import KV.C34.Model KV.C34.Proofs KV.C34.Props.
 Open Scope N_scope.
+
+(* a statement about all bindings of one kid in a concrete key map *)
+Ltac conc :=
+  let x := fresh "x" in let Hin := fresh "Hin" in
+  intros x Hin; vm_compute in Hin;
+  repeat (destruct Hin as [Hin|Hin]; [inversion Hin; subst; vm_compute; auto|]); try destruct Hin.
+(* the new kids of a rotation [(0, a); (3, b)] differ from the watched kid *)
+Ltac rot :=
+  let u := fresh "u" in let E := fresh "E" in
+  intros _ u E; revert E; unfold rot_kid; cbn [find];
+  destruct (u =? 0); [discriminate|]; destruct (u =? 3); discriminate.
+
+(* two replicas; es256 key 1 and jwe key 2 created at r0, replicated, key 1 revoked and committed *)
+Definition w_pre : list op :=
+  [OAssert 0 0 0 (1, 1) 1; OAssert 0 3 0 (2, 1) 2; OCommit 0; ORepl 0 1 false (0, 0);
+   ORevoke 0 [1] (3, 1); OAssert 0 0 0 (4, 1) 3; OCommit 0].
+Definition w_cl : cluster := run true [rep0; rep0] w_pre.
+(* then: rotations in the same second, a re-revocation that is aborted, replication in both roles
+   with a trim id that removes the revoked key, a retain, a verify, a sign *)
+Definition w_ops : list op :=
+  [ORotate 0 5000 (5, 1) [(0, 4); (3, 5)]; ORotate 0 5400 (6, 1) [(0, 6); (3, 7)]; OCommit 0;
+   ORevoke 0 [1] (7, 1); OAbort 0; ORepl 0 1 true (0, 0); ORepl 1 0 false (9, 0); ORetain 0 2;
+   OVerify 0 0 1 true; OSign 0 0 6000].
+
+Example C34_witness_revoked_never_hyps :
+  Ucl w_cl /\ deadR (getr w_cl 0) 1 /\ safe_hist true w_cl 0 1 w_ops /\
+  (exists x, In (1, x) (r_ent (getr w_cl 0))) /\          (* non-trivial: the key is there, revoked *)
+  verify (r_obj (getr (run true w_cl w_ops) 0)) 0 1 true = VNotAssoc.  (* trimmed at the end *)
+Proof.
+  split; [apply run_U, (Ucl_repeat 2)|].
+  split; [split; conc|].
+  split.
+  - unfold w_ops.
+    split; [rot|]. split; [rot|]. split; [exact I|]. split; [exact I|]. split; [exact I|].
+    split; [intros E; discriminate E|]. split; [intros _; conc|].
+    split; [exact I|]. split; [exact I|]. split; [exact I|]. exact I.
+  - split; [eexists; vm_compute; left; reflexivity|vm_compute; reflexivity].
+Qed.
+
+(* the same history seen from key 2 (jwe, never revoked): it keeps verifying *)
+Example C34_witness_unrevoked_hyps :
+  aliveR 3 (getr w_cl 0) 2 /\ keep_hist true w_cl 0 3 2 w_ops /\
+  mem 3 (o_pres (r_obj (getr (run true w_cl w_ops) 0))) = true /\
+  verify (r_obj (getr (run true w_cl w_ops) 0)) 3 2 true = VOk.
+Proof.
+  split; [split; (split; [eexists; vm_compute; right; left; reflexivity|conc])|].
+  split; [|split; vm_compute; reflexivity].
+  unfold w_ops.
+  split; [rot|]. split; [rot|]. split; [exact I|].
+  split; [intros _ [E|[]]; discriminate E|]. split; [exact I|].
+  split; [intros E; discriminate E|]. split; [intros _; conc|].
+  split; [exact I|]. split; [exact I|]. split; [exact I|]. exact I.
+Qed.
+
+(* revoke premises: a successful revoke of a real key *)
+Example C34_witness_revoke_hyps :
+  step true (run true [rep0; rep0] [OAssert 0 0 0 (1, 1) 1; OCommit 0]) (ORevoke 0 [1] (3, 1))
+  = (run true [rep0; rep0] [OAssert 0 0 0 (1, 1) 1; OCommit 0; ORevoke 0 [1] (3, 1)], OutRev true).
+Proof. vm_compute. reflexivity. Qed.
+
+(* replication premise: the source holds key 1 revoked while the receiver still holds it valid *)
+Example C34_witness_spread_hyps :
+  dead (r_ent (getr w_cl 0)) 1 /\ (exists x, In (1, x) (r_ent (getr w_cl 0))) /\
+  verify (r_obj (getr w_cl 1)) 0 1 true = VOk /\
+  verify (r_obj (getr (fst (step true w_cl (ORepl 0 1 true (0, 0)))) 1)) 0 1 true = VRevoked.
+Proof.
+  split; [conc|]. split; [eexists; vm_compute; left; reflexivity|]. split; vm_compute; reflexivity.
+Qed.
+
+(* signer premises: fresh ids only; the history contains the shape that broke the old tree (two
+   keys in second 5, one of them revoked) and the right key signs *)
+Example C34_witness_signer_hyps :
+  fresh_hist true (repeat rep0 1) cex_ops /\
+  signer (r_obj (getr (run true (repeat rep0 1) cex_ops) 0)) 0 6 = Some 3.
+Proof.
+  split; [|vm_compute; reflexivity].
+  change (repeat rep0 1) with [rep0].
+  cbn [fresh_hist cex_ops fresh_op good_op]. repeat split; try reflexivity;
+    try (intros _; reflexivity); try (constructor; [intros []|constructor]);
+    intros u [<-|[]]; reflexivity.
+Qed.
+
+(* pre-fix partial theorem: a history with same-second rotations and a revoke WITHOUT a valid sibling *)
+Definition w_good : list op :=
+  [OAssert 0 0 0 (1, 1) 1; OCommit 0; ORotate 0 5000 (2, 1) [(0, 2)]; ORotate 0 5400 (3, 1) [(0, 3)];
+   OSign 0 0 6000; ORevoke 0 [1] (4, 1); OAssert 0 0 0 (5, 1) 4; OSign 0 0 400; OCommit 0].
+Example C34_witness_prefix_partial_hyps :
+  wf_cl [rep0] /\ good_hist false [rep0] w_good /\
+  sign (r_obj (getr (run false [rep0] w_good) 0)) 0 6000 = SKid 3 /\
+  sign (r_obj (getr (run false [rep0] w_good) 0)) 0 400 = SKid 4.
+Proof.
+  split; [apply (wf_repeat 1)|]. split; [|split; vm_compute; reflexivity].
+  unfold w_good.
+  split; [intros _; reflexivity|]. split; [exact I|].
+  split; [split; [constructor; [intros []|constructor]|intros u [<-|[]]; reflexivity]|].
+  split; [split; [constructor; [intros []|constructor]|intros u [<-|[]]; reflexivity]|].
+  split; [exact I|]. split; [vm_compute; reflexivity|].
+  split; [intros _; reflexivity|]. split; [exact I|]. split; [exact I|]. exact I.
+Qed.
+
+(* The premise of C34_revoked_never about replication sources is NEEDED (and is what the
+   replication window guarantees): r0 revokes key 1 and trims it away (trim id past the
+   revocation); a replica r1 that never saw the revocation is merged in: key 1 verifies again. *)
+Example C34_witness_stale_source_needed :
+  let ops := [OAssert 0 0 0 (1, 1) 1; OCommit 0; ORepl 0 1 false (0, 0);
+              ORevoke 0 [1] (3, 1); OAssert 0 0 0 (4, 1) 2; OCommit 0;
+              ORepl 0 0 false (9, 0);          (* trim at r0 *)
+              ORepl 1 0 false (0, 0)] in      (* stale r1 merged into r0 *)
+  verify (r_obj (getr (run true [rep0; rep0] ops) 0)) 0 1 true = VOk.
+Proof. vm_compute. reflexivity. Qed.
+
+(* the pre-fix counterexample: legal history (fresh ids), old tree signs with key 1 (second 0)
+   although key 3 (second 5) is valid; the current tree signs with key 3 *)
+Example C34_witness_prefix_refuted :
+  fresh_hist false [rep0] cex_ops /\
+  signer (r_obj (getr (run false [rep0] cex_ops) 0)) 0 6 = Some 1 /\
+  signer (r_obj (getr (run true [rep0] cex_ops) 0)) 0 6 = Some 3.
+Proof. split; [exact cex_fresh|split; vm_compute; reflexivity]. Qed.
